@@ -16,9 +16,14 @@ from pyvc.core import Unsupported         # noqa: E402
 from pyvc import solve                    # noqa: E402
 
 
+CURRENT = {}
+
+
 def build():
     prog = Program()
     schema = Schema(prog)
+    CURRENT["schema"] = schema
+    CURRENT["prog"] = prog
     reg = Registry(prog)
     import contracts
     for m in sorted(pkgutil.iter_modules(contracts.__path__), key=lambda m: m.name):
@@ -69,7 +74,7 @@ def main(argv):
     res = solve.discharge(allobls, timeout_ms=int(os.environ.get("VC_TIMEOUT_MS", "10000")))
     bad = 0
     for r in res:
-        if r.status not in ("proved", "covered"):
+        if r.status not in ("proved", "covered", "cover-unknown"):
             bad += 1
             print("%-10s %s  (%.2fs %s)" % (r.status.upper(), r.ob.name, r.secs, r.backend))
             if r.status == "refuted" and os.environ.get("VC_MODEL"):
